@@ -260,6 +260,15 @@ def connect_kwargs(cn, out):
 # ----------------------------------------------------------------------------- sync execution
 def run_op_sync(dev, op, i, out):
     name = op["op"]
+    if name == "seq":
+        # several operations executed one after the other by the same caller; the value is the list of their outcomes
+        res = []
+        for sub in op["ops"]:
+            try:
+                res.append({"ok": run_op_sync(dev, sub, i, out)})
+            except (Exception, CallbackAbort) as e:  # noqa
+                res.append(exc_result(e))
+        return res
     if name == "connect":
         return dev.connect(**connect_kwargs(op, out))
     if name == "close":
@@ -308,6 +317,14 @@ def run_op_sync(dev, op, i, out):
 
 async def run_op_async(dev, op, i, out):
     name = op["op"]
+    if name == "seq":
+        res = []
+        for sub in op["ops"]:
+            try:
+                res.append({"ok": await run_op_async(dev, sub, i, out)})
+            except (Exception, CallbackAbort) as e:  # noqa
+                res.append(exc_result(e))
+        return res
     if name == "connect":
         return await dev.connect(**connect_kwargs(op, out))
     if name == "close":
